@@ -245,6 +245,31 @@ func nestedExp[T any](d dom[T], inst func(e, inner T) monoid.Monoid[T]) experime
 	}
 }
 
+// twinS / twinN wrap the operation under test in a closure of a function literal that is used nowhere else, after handing
+// `first` another closure of the *same literal* that captures another operation: two closures of one literal share their
+// code, not their meaning - an instance made from the second one must not be confused with one made from the first.
+func twinS(_ string, first func(func(string, string) string), op func(string, string) string) func(string, string) string {
+	first(mkS(func(a, b string) string { return b + "?" + a }))
+	return mkS(op)
+}
+
+// (not inlined: the compiler clones a closure with every inlined copy of the function that makes it)
+//
+//go:noinline
+func mkS(f func(string, string) string) func(string, string) string {
+	return func(a, b string) string { return f(a, b) }
+}
+
+//go:noinline
+func mkN(f func(int, int) int) func(int, int) int {
+	return func(a, b int) int { return f(a, b) }
+}
+
+func twinN(first func(func(int, int) int), op func(int, int) int) func(int, int) int {
+	first(mkN(func(a, b int) int { return b - a + 1 }))
+	return mkN(op)
+}
+
 // a top-level function as the argument of semigroup.From
 func subTop(a, b int) int {
 	r := a - b
@@ -364,8 +389,10 @@ func experiments(tab []int) map[string]entry {
 			return ord.ContraMap[string, int]{Ord: inner, ContraMap: logged1("proj", id, strDom, tabP)}
 		})),
 
-		"semigroup.From/concat": S(semigroupExp(strDom, func() semigroup.Semigroup[string] { return semigroup.From[string](opS()) })),
-		"semigroup.From/sub":    N(semigroupExp(numDom, func() semigroup.Semigroup[int] { return semigroup.From[int](opN()) })),
+		"semigroup.From/concat": S(semigroupExp(strDom, func() semigroup.Semigroup[string] {
+			return semigroup.From[string](twinS("", func(op func(string, string) string) { _ = semigroup.From[string](op) }, opS()))
+		})),
+		"semigroup.From/sub": N(semigroupExp(numDom, func() semigroup.Semigroup[int] { return semigroup.From[int](opN()) })),
 		// functions of other provenance: method values of a Monoid / a Semigroup / a struct, a top-level function
 		"semigroup.From/monoid.Combine/concat": S(semigroupExp(strDom, func() semigroup.Semigroup[string] {
 			return semigroup.From[string](monoid.FromOp("!", opS()).Combine)
@@ -378,8 +405,14 @@ func experiments(tab []int) map[string]entry {
 		})),
 		"semigroup.From/func/sub": N(semigroupExp(numDom, func() semigroup.Semigroup[int] { return semigroup.From[int](subTop) })),
 
-		"monoid.FromOp/concat": S(monoidExp(strDom, func(e string) monoid.Monoid[string] { return monoid.FromOp(e, opS()) })),
-		"monoid.FromOp/sub":    N(monoidExp(numDom, func(e int) monoid.Monoid[int] { return monoid.FromOp(e, opN()) })),
+		// (before the instance under test another one is made, with the same neutral element, from a closure of the *same function
+		// literal* that captures another operation: two closures of one literal share their code, not their meaning)
+		"monoid.FromOp/concat": S(monoidExp(strDom, func(e string) monoid.Monoid[string] {
+			return monoid.FromOp(e, twinS(e, func(op func(string, string) string) { _ = monoid.FromOp(e, op) }, opS()))
+		})),
+		"monoid.FromOp/sub": N(monoidExp(numDom, func(e int) monoid.Monoid[int] {
+			return monoid.FromOp(e, twinN(func(op func(int, int) int) { _ = monoid.FromOp(e, op) }, opN()))
+		})),
 		"monoid.From/concat": S(monoidExp(strDom, func(e string) monoid.Monoid[string] {
 			return monoid.From[string](e, opSemigroup[string]{opS()})
 		})),
